@@ -3,6 +3,8 @@ from __future__ import annotations
 
 from typing import Any, List
 
+import numpy as np
+
 from jsim.core import Ctx, Monitor, Rec
 from jsim.generic import Plan, swarm_weights
 from jsim.props.base import Prop
@@ -16,6 +18,22 @@ class Observer(Monitor):
         ctx.stats.check("observations_recomputed")
         if dev is not None:
             ctx.fail(self.name, dev[0], f"{where}: {dev[1]}")
+        # the action mask is an observation field too. Where the state carries no mask of its own to copy from, the
+        # documented function of the state is the rule statement itself (the same bounds C04 judges the mask by)
+        ad = ctx.adapter
+        if ad.mask_mode and int(rec.ts.step_type) != 2 and getattr(rec.state, "action_mask", None) is None:
+            mask = ad.env_mask(rec.ts.observation)
+            b = ad.legal_bounds(rec.state, ctx.env)
+            if mask is not None and b is not None and b[0].shape == mask.shape:
+                wrong = (b[0] & ~mask) | (mask & ~b[1])
+                j = ad.judged(rec.state, ctx.env)
+                if j is not None:
+                    wrong &= j
+                ctx.stats.check("mask_fields_recomputed_from_rules")
+                if wrong.any():
+                    i = [int(x) for x in np.argwhere(wrong)[0]]
+                    ctx.fail(self.name, "action_mask", f"{where}: observation.action_mask{i} = {bool(mask[tuple(i)])} is not the documented "
+                             f"function of the state; {ad.describe(rec.state, ctx.env, tuple(i))}")
 
     def on_reset(self, ctx: Ctx, rec: Rec) -> None:
         self._check(ctx, rec, "reset")
